@@ -69,6 +69,8 @@ fn parse_list_base<'t, T, G>(
                 let mut values = Vec::from([element]);
 
                 while let Ok((after_sep, _)) = parse_separator(input) {
+                    #[cfg(feature = "verif-hooks")]
+                    rssl_text::verif::tick(8);
                     match parse_element(after_sep) {
                         Ok((rest, element)) => {
                             values.push(element);
@@ -238,6 +240,8 @@ fn parse_internal(input: &[LexToken]) -> ParseResult<'_, Vec<RootDefinition>> {
     let mut roots = Vec::new();
     let mut rest = input;
     loop {
+        #[cfg(feature = "verif-hooks")]
+        rssl_text::verif::tick(9);
         let last_def = parse_root_definition_with_semicolon(rest);
         if let Ok((remaining, root)) = last_def {
             roots.push(root);
